@@ -8,6 +8,8 @@ package node
 //@ import "github.com/mosaicnetworks/babble/src/peers"
 //@ import hg "github.com/mosaicnetworks/babble/src/hashgraph"
 //@ import "github.com/mosaicnetworks/babble/src/net"
+//@ import "github.com/mosaicnetworks/babble/src/config"
+//@ import "github.com/mosaicnetworks/babble/src/proxy"
 //@ import "github.com/mosaicnetworks/babble/src/crypto/keys"
 
 // Validator memo cells (id, public key bytes and hex are computed once from the private key)
@@ -176,8 +178,22 @@ package node
 //@   requires n != nil && n.core != nil && n.core.validator != nil && n.core.validator.Key != nil && n.core.hg != nil && n.conf != nil && cmd != nil
 //@   modifies hg.G_miss(n.core.hg.Store)
 
+// The core is born with a ready hashgraph, empty pools, an empty promise table and head table (what Node.standing asks
+// of it, given a validator with a key and non-nil peer sets).
+//@ func newCore(validator *Validator, peers *peers.PeerSet, genesisPeers *peers.PeerSet, store hg.Store, proxyCommitCallback proxy.CommitCallback, maintenanceMode bool, logger *logrus.Entry) *core
+//@   scope entry
+//@   requires validator != nil && validator.Key != nil && peers != nil && genesisPeers != nil
+//@   ensures[born] ret0 != nil && __fresh(ret0) && ret0.validator == validator && ret0.hg != nil && ret0.hg.ConsensusReady() && ret0.selfBlockSignatures != nil && ret0.heads != nil && ret0.promises != nil && ret0.peers == peers && ret0.validators == genesisPeers && len(ret0.transactionPool) == 0 && len(ret0.internalTransactionPool) == 0 && ret0.seq == -1 && ret0.head == ""
+
 // standing: the invariants a running node keeps between requests (established by NewNode/Init; not verified there).
 //@ ghost func (n *Node) standing() bool { return n != nil && n.core != nil && n.core.validator != nil && n.core.validator.Key != nil && n.core.hg != nil && n.conf != nil && n.core.selfBlockSignatures != nil && n.core.heads != nil && n.core.hg.ConsensusReady() && n.core.peers != nil && n.core.promises != nil && n.proxy != nil }
+
+// A new node satisfies the standing invariants (given a configuration, a validator with a key, peer sets and an
+// application proxy).
+//@ func NewNode(conf *config.Config, validator *Validator, peers *peers.PeerSet, genesisPeers *peers.PeerSet, store hg.Store, trans net.Transport, proxy proxy.AppProxy) *Node
+//@   scope entry
+//@   requires conf != nil && validator != nil && validator.Key != nil && peers != nil && genesisPeers != nil && proxy != nil
+//@   ensures[standing] ret0 != nil && ret0.standing()
 
 // The handlers of the mutating requests: no panic for any request content (C08), under the node's standing
 // invariants (core, hashgraph, validator key, pools and heads exist).
